@@ -26,7 +26,7 @@ EXPLANATION = (
     "frames; inverse laws on values."
 )
 LEVEL_RULE = "one obligation per (method) / (constructor parameter) / (constructor call, attribute) / raise"
-FLOORS = {"R1": 10, "R2": 28, "R3": 20, "R4": 6, "R5": 10, "R6": 2, "R7": 1, "R8": 1, "R9": 2, "R10": 1}
+FLOORS = {"R1": 10, "R2": 28, "R3": 20, "R4": 6, "R5": 10, "R6": 2, "R7": 1, "R8": 1, "R9": 2, "R10": 1, "R11": 1}
 
 COLUMN_CLASSES = ["pandera/api/pandas/components.py::Column", "pandera/api/polars/components.py::Column"]
 # attributes that a conversion between Column and Index legitimately sets itself / cannot carry over
@@ -463,7 +463,39 @@ def r10_names_by_none_only(ctx):
     ctx.ob("R10", first, "no truthiness test / or-fallback on a component name in the schema API modules", True, f"{n} functions analysed")
 
 
+def r11_rename_reaches_unique(ctx):
+    """`DataFrameSchema.unique` names columns.  rename_columns re-keys the column mapping, so it has to pass the same
+    names through the rename map as well - otherwise rename(S) still demands joint uniqueness of a column that no longer
+    exists under that name, and rejects rename(D) (or, the column list being intersected with the frame, checks fewer
+    columns than declared)."""
+    from ..util import Expander, same_module_helpers
+    ix = ctx.ix
+    cont = ix.cls("pandera/api/dataframe/container.py::DataFrameSchema")
+    f = cont.method("rename_columns")
+    if f is None:
+        raise AnalysisError("DataFrameSchema.rename_columns missing")
+    ctx.touched(f)
+    mapping = f.positional[1]
+    ok = False
+    for g in same_module_helpers(ix, f):
+        ex = Expander(g.node)
+        for st in walk_no_nested(g.node):
+            if isinstance(st, ast.Assign) and any(isinstance(t, ast.Attribute) and t.attr in ("unique", "_unique") for t in st.targets):
+                names = {x.id for d in ex.closure(st.value) for x in ast.walk(d) if isinstance(x, ast.Name)}
+                if mapping in names or g is not f:
+                    ok = True
+        for c in calls_in(g.node):
+            v = kw(c, "unique")
+            if v is not None and mapping in {x.id for d in ex.closure(v) for x in ast.walk(d) if isinstance(x, ast.Name)}:
+                ok = True
+    ctx.ob("R11", f, "rename_columns renames the columns listed in `unique` as well", ok,
+           "the unique list is rewritten through the rename map" if ok else
+           "rename_columns rebuilds `.columns` only: DataFrameSchema({'a':..,'b':..}, unique=['a','b']).rename_columns({'a':'x'}) keeps unique == ['a','b'], "
+           "so joint uniqueness is checked on ('b',) alone and the renamed schema rejects the renamed frame", f.loc(f.node))
+
+
 def run(ctx):
+    r11_rename_reaches_unique(ctx)
     r9_set_name_scope(ctx)
     r10_names_by_none_only(ctx)
     from ..defassign import check_modules
